@@ -24,7 +24,15 @@ def _c14_case(c):
 # vm_compute and compared with what the extracted OCaml runner printed (model.txt).
 # This cross-checks the extraction and the OCaml driver, not the implementation.
 
-_VM_PRELUDE = """From Oras Require Import Base.Prelude Model.Referrers Model.Merge.
+_VM_PRELUDE = """From Oras Require Import Base.Prelude Model.Referrers Model.Merge Model.Live.
+Definition y_in (k : N) (l : list N) : bool := existsb (N.eqb k) l.
+Definition y_filt (live busy taint zs : list N) : list N :=
+  filter (fun k => negb (y_in k zs) && negb (y_in k (busy ++ taint))) live.
+Definition y_seteq (a b : list N) : bool := forallb (fun k => y_in k b) a && forallb (fun k => y_in k a) b.
+Fixpoint y_dedup (l : list N) : list N :=
+  match l with [] => [] | x :: t => if y_in x t then y_dedup t else x :: y_dedup t end.
+Definition y_b (busy taint zs : list N) : nat :=
+  length (y_dedup (filter (fun k => negb (y_in k zs)) (busy ++ taint))).
 Definition batches (log : list obs) : list (nat * list nat) :=
   flat_map (fun o => match o with OBatch m ms => [(m, ms)] | _ => [] end) log.
 Definition puts (log : list obs) : list (list N) :=
@@ -65,6 +73,17 @@ def _vm_vis(evs):
                 continue
             out.append("V%s %s%%nat %s" % (e[0], t, "true" if f == "1" else "false"))
     return _vm_lst(out, "vis")
+
+
+def _vm_lvis(evs):
+    out = []
+    for e in evs:
+        if e[0] in "MNQ":
+            out.append("V%s %s%%nat" % (e[0], e[1:]))
+        else:
+            one = _vm_vis([e])
+            out.append("LV (%s)" % one[1:-1])
+    return _vm_lst(out, "lvis")
 
 
 def _vm_results(tok):
@@ -109,6 +128,14 @@ def _vm_goal(case, out):
                 return None
             return "pool_trace None %s = %s" % (_vm_lst(["true" if x[0] == "g" else "false" for x in p[1:]], "bool"),
                                                 _vm_lst(["true" if ch == "N" else "false" for ch in o[1]], "bool"))
+        if p[0] == "Y":
+            # Y <sg> <init0> <live0> <changes> <z> <ev>...  ->  Y L <l> B <b>
+            r0 = "None" if p[2] == "none" else "(Some %s)" % _vm_lst([] if p[2] == "-" else ["(mkDesc %s 0 0)" % k for k in p[2].split(",")], "desc")
+            call = "lvis_summary %s %s %s %s %s" % ("true" if p[1] == "1" else "false", r0, _vm_ns(p[3]), _vm_changes(p[4]), _vm_lvis(p[6:]))
+            if o[0] == "REJECT":
+                return call + " = None"
+            return ("match %s with Some (live, busy, taint) => (y_seteq (y_filt live busy taint %s) %s, y_b busy taint %s) = (true, %s%%nat) | None => False end"
+                    % (call, _vm_ns(p[5]), _vm_ns(o[2]), _vm_ns(p[5]), o[4]))
         if p[0] == "M":
             n = int(p[1])
             changes = _vm_lst(["Add (mkDesc %d 0 0)" % (t + 1) for t in range(n)], "change")
@@ -145,7 +172,7 @@ def _c14_vm_sample(d, tier, coq, build, want=300):
         for l in f:
             i, _, o = l.rstrip("\n").partition(" ")
             outs[i] = o
-    quota = {"A": 90, "R": 20, "F": 20, "T": 20, "K": 10, "D": 20, "M": 70, "X": 70, "L": 20, "XL": 25, "P": 15}
+    quota = {"A": 90, "R": 20, "F": 20, "T": 20, "K": 10, "D": 20, "M": 70, "X": 70, "L": 20, "XL": 25, "P": 15, "Y": 40}
 
     def kind(c):
         k = c.split(" ", 1)[0]
@@ -207,14 +234,14 @@ CONFIG = {
         "a descriptor is abstracted to its key (descriptor.FromOCI: media type x digest x size, interned injectively by the harness, 0 = all-zero), its artifact type and the rest of its payload; changes name non-zero descriptors (pushWithIndexing/deleteWithIndexing only index the three manifest media types) - hypothesis changes_nonempty / guard of EGet",
         "Merge: Model/Merge.v hands a batch result to its members in one step (EComplete). Model/MergeFine.v is the same system at CHANNEL granularity (buffered-1 status channels per generation, main status in the buffer, close / blocking sends in complete(), late receivers, the swap as its own lock region); C14_fine_simulated proves that every run of the channel-level system is simulated by a run of Model/Merge.v, so every theorem about reachable states of Model/Merge.v transfers (C14_fine_no_lost_update, C14_fine_structure); both models replay every M / X schedule and must agree with each other and with the implementation; Model/Delivery.v (isolated delivery step: exactly once, boundedness) is kept. Pool.Get / release = the reference count pool_get / pool_put of the model (C14_pool_is_refcount, C14_pool_shared), tied by the P lines: identity of the pooled Merge per Get in lock order, sequential sequences and one FORCED race (a release waiting for the pool lock while a Get of the same key overtakes it; forced through Pool.New of another key, goroutine states from runtime.Stack). Not modelled: a caller is identified with one call; goroutine scheduling inside a lock region",
         "one referrers tag = one copy of the transition system; different tags touch disjoint Pool keys and Merge objects (C14_tags_independent is about the product, by construction). Index manifests are content-addressed: an index without a single referrer (the empty index, zero descriptors only) can be ONE manifest under several tags; its deletion by another tag's update is the environment event EExtDrop of the per-tag system (the tag is dropped; as a set nothing changes) or a 404 on this tag's own DELETE (EDel fail); both are generated (pre-existing indexes are byte-identical across subjects unless DistinctPre) and replayed by the model",
-        "registry: a failed index exchange (EPrepare/EPut/EDel fail) leaves the registry cell unchanged; a LOST RESPONSE of the index PUT or of the index DELETE (takes effect, answered 500) is a model event of its own (EPutLost / EDelLost; ghost result RLost, seen by the callers as the plain error; a lost DELETE after a PUT yields the index-delete error): C14_lost_response (nil / index-delete error => took effect; plain error => took effect iff the response was lost) and C14_plain_error_no_effect (truthful registry: plain error <=> no effect); the projected X / Y lines of runs with lost responses are judged (results, index, PUT bodies, dangling count: the old index stays); lost responses of the manifest exchanges are not generated; DELETE of a manifest by digest also drops tags pointing at it",
+        "registry: a failed index exchange (EPrepare/EPut/EDel fail) leaves the registry cell unchanged; a LOST RESPONSE of the index PUT or of the index DELETE (takes effect, answered 500) is a model event of its own (EPutLost / EDelLost; ghost result RLost, seen by the callers as the plain error; a lost DELETE after a PUT yields the index-delete error): C14_lost_response (nil / index-delete error => took effect; plain error => took effect iff the response was lost) and C14_plain_error_no_effect (truthful registry: plain error <=> no effect); the projected X / Y lines of runs with lost responses are judged (results, index, PUT bodies, dangling count: the old index stays); lost responses of the manifest exchanges are model events of Model/Live.v too (manifest PUT took effect, push returns the error: LPutLost - live, unlisted, nothing claimed about that key; manifest DELETE took effect, delete returns the error: LDel - gone and unlisted, judged), covered by C14_listing_is_live, generated, explored and replayed on the Y lines (tokens Q<t> / M<t>); DELETE of a manifest by digest also drops tags pointing at it",
         "Go runtime scheduling / memory model, sync.Mutex, channels, sync/atomic CompareAndSwap, encoding/json and net/http are modelled, not verified; interleavings of the visible events (lock regions, HTTP exchanges) are quantified over",
         "pingReferrers / Referrers() fallback / checkOCISubjectHeader: only SetReferrersCapability's compare-and-swap is modelled (C14_capability_monotone is about that CAS); 'the detected capability never flips' for the detection paths is sampled end-to-end after every exchange, starting from Unknown, with pings never concurrent (one exchange released at a time) - oracle only",
         "OUT OF SCOPE (not in the quantifier, not generated): pre-existing index entries that describe a live referrer with another size / media type (same digest: a different key for applyReferrerChanges, so the referrer is listed twice by digest after a push), entries with a wrong artifact type / annotations (an existing key keeps its OLD payload on Add), stale entries of deleted manifests and entries of other subjects: these are indexes no conforming client produces; the quantifier names duplicates and empty entries; subjects with a sha512 digest (buildReferrersTag yields a 135-character tag, the reference grammar allows 128: every tag-schema path fails with an invalid-reference error before any request is sent - a loud, deterministic failure of the call, no index is touched, nothing is lost; a conformance question of the tag construction (distribution-spec: truncate), not of C14's statement; reported by b-C20, subjects here are sha256)",
         "KNOWN FINDING same-manifest-race (C14_listing_is_live_refuted): Push(A) || Delete(A). For every interleaving in which operations on the SAME manifest do not overlap (Model/Live.v: manifest PUT before / manifest DELETE after the index update, any number of concurrent operations on different manifests, failures of the index exchanges, failed manifest DELETE) 'listing = exactly the live manifests' IS a theorem: C14_listing_is_live (a manifest no operation is working on and no failed operation has touched is listed iff it is in the registry); tied by the Y lines (live set predicted by the model vs registry store)",
     ],
     "level_text": "Coq theorems: applyReferrerChanges (position map, tombstones, hint; transcribed loop by loop) = set semantics over the de-duplicated non-empty old list, NoDup, order of survivors, errNoReferrerUpdate iff nothing changes; for the Merge/Pool/updateReferrersIndex transition system, over every trace (any number of callers, every interleaving of lock regions and HTTP exchanges, any pre-existing index, injected failures of index GET/PUT/DELETE): at most one caller between prepare and complete, Pool entry dropped only when unreferenced, batches linearise (the calls that returned nil or a referrers-index-delete error - exactly those - took effect once, in order, and the index is the fold of their changes), index-delete error only after the update took effect, superseded indexes deleted unless skipped/failed, capability state never flips, tags independent; tied to the code by differential runs of the extracted models (apply/removeEmpty/filter; real Merge+Pool under synctest; end-to-end push/delete through one Repository against a fake tag-schema registry with gate-controlled exchange order, projected per tag onto the transition system) and an independent oracle (live set, Referrers-API registry, dangling indexes, capability samples)",
-    "level_note": "clause by clause: listing = fold of the accepted changes, each key once, no empty entry, filter (C14_listing + C14_no_lost_update: theorems over every trace); 'exactly the LIVE manifests' = C14_listing_is_live for every interleaving without same-manifest overlap (+ Y correspondence) and known finding same-manifest-race with refuted witness for the overlap; artifact type / annotations: C14_entries_origin + C14_equals_api (type rule only), rest oracle (decoration, api-mismatch vs the fake's own Referrers API); superseded indexes: C14_gc / C14_gc_clean / C14_gc_count + per-tag dangling count compared with the implementation; capability: CAS theorem + C14_capability_all_paths (translator: the field has no other writer) + e2e samples; channel-level interleavings: safety proved (C14_fine_simulated), deadlock freedom and bounded completion proved at channel granularity (C14_fine_no_deadlock with the counting invariant InvP, C14_fine_bounded_completion) and exercised by the free-running stress stream; Merge's channel hand-off is one model step (see assumptions); referrers listing by the Referrers API profile is the fake registry's own implementation of the distribution spec (C14_equals_api is about the artifact-type rule); manifests whose push/delete returned a plain error are 'uncertain' for the oracle (may or may not be listed), as the property allows; three defects of oras-go found by this check were repaired in fix: commits (known_findings.d/C14.json)",
+    "level_note": "clause by clause: listing = fold of the accepted changes, each key once, no empty entry, filter (C14_listing + C14_no_lost_update: theorems over every trace); 'exactly the LIVE manifests' = C14_listing_is_live for every interleaving without same-manifest overlap (+ Y correspondence) and known finding same-manifest-race with refuted witness for the overlap; artifact type / annotations: C14_entries_origin + C14_equals_api (type rule only), rest oracle (decoration, api-mismatch vs the fake's own Referrers API); superseded indexes: C14_gc / C14_gc_clean / C14_gc_count + per-tag dangling count compared with the implementation; capability: CAS theorem + C14_capability_all_paths (translator: the field has no other writer) + e2e samples; channel-level interleavings: safety proved (C14_fine_simulated), deadlock freedom, bounded completion and termination proved at channel granularity (C14_fine_no_deadlock with the counting invariant InvP, C14_fine_bounded_completion, C14_fine_terminates: some run without new calls reaches a quiescent state) and exercised by the free-running stress stream; Merge's channel hand-off is one model step (see assumptions); referrers listing by the Referrers API profile is the fake registry's own implementation of the distribution spec (C14_equals_api is about the artifact-type rule); manifests whose push/delete returned a plain error are 'uncertain' for the oracle (may or may not be listed), as the property allows; three defects of oras-go found by this check were repaired in fix: commits (known_findings.d/C14.json)",
     "technique": "machine-checked proof in Coq (invariants over all traces of a transition system; refinement of the position-map algorithm to set semantics) + extracted-model/implementation correspondence under testing/synctest + independent oracle",
     "explanation": "theorems over all interleavings/histories about the model of applyReferrerChanges and of the Merge/Pool/updateReferrersIndex protocol; the extracted model replays the schedules observed on the real code (random + all schedules of small cases) and must predict batches, per-call results and the final index; the oracle compares Referrers()/Predecessors() after quiescence with the generator's live set and with a Referrers-API registry",
 }
